@@ -24,7 +24,7 @@ RULE = ('I2C EEPROM v0/v1: all channels / speeds / float32 trims incl. NaN and e
 ASSUMPTIONS = ['EEPROM layout: "0xBC", version, channel, speed, pitch trim, roll trim, [address hi, address lo32], sum mod 256',
                '1-wire layout: 0xEB, pins u32, vid, pid, crc32&0xFF | 0x00, len, TLV..., crc32&0xFF',
                'reads that would run past the 112-byte 1-wire memory fail on the device and are not generated']
-REQUIRED = ['mon.lh_config_writer_subsets_not_starting_at_zero_or_with_gaps', 'mon.i2c_roundtrip', 'mon.i2c_corruptions', 'mon.ow_roundtrip', 'mon.ow_corruptions', 'mon.lh_mem', 'mon.lh_yaml',
+REQUIRED = ['mon.i2c_reads_of_other_memories_seen_by_the_element', 'mon.lh_config_writer_subsets_not_starting_at_zero_or_with_gaps', 'mon.i2c_roundtrip', 'mon.i2c_corruptions', 'mon.ow_roundtrip', 'mon.ow_corruptions', 'mon.lh_mem', 'mon.lh_yaml',
             'mon.param_yaml', 'mon.poly4d', 'mon.led_timings', 'mon.led_timing_entries_around_the_end_marker', 'mon.deck_info', 'mon.loco', 'mon.loco2', 'mon.ow_all_lengths',
             'mon.compressed_trajectory_uploads', 'mon.lh_memory_to_file_to_memory']
 DESC_TIMEOUT = 900
@@ -154,6 +154,21 @@ def run_i2c(desc, ctx):
         if not ok:
             ctx.violate('i2c:correct-image-rejected-or-fields-lost', {'image': ref.hex(), 'valid': e2.valid,
                                                                       'elements': core.jsonable(e2.elements)})
+            continue
+        # the memory subsystem hands every finished read to every memory element: reads of OTHER memories (any address,
+        # also the ones this element uses itself) leave the parsed configuration as it is and complete nothing here
+        other = I2CElement(id=rnd.randint(1, 9), type=0, size=64, mem_handler=MemHandler(size=64))
+        snap = (repr(sorted(e2.elements.items())), e2.valid)       # (repr: a NaN trim equals itself)
+        try:
+            for fa in (16, 0, 16, rnd.randrange(64)):
+                e2.new_data(other, fa, bytes(rnd.getrandbits(8) for _ in range(rnd.choice((5, 16, 20, 24)))))
+            e2.update(lambda m: fin.append(2))          # a refresh of its own, with foreign reads arriving in between
+        except Exception as e:  # noqa
+            snap = ('raised', repr(e)[:120])
+        ctx.count('mon.i2c_reads_of_other_memories_seen_by_the_element')
+        if snap != (repr(sorted(e2.elements.items())), e2.valid) or fin != [1, 2]:
+            ctx.violate('i2c:parsed-configuration-disturbed-by-reads-of-other-memories',
+                        {'before': core.jsonable(snap), 'after': core.jsonable((e2.elements, e2.valid)), 'completions': fin})
             continue
         # single-byte corruptions
         for off in range(len(ref)):
